@@ -136,7 +136,10 @@ func verifyOneWith(P *Program, S *Specs, E *Effects, fn *ssa.Function, o RunOpts
 		}
 	}()
 	res.OutOfSubset = g.outOfSubset
-	if res.Error == "" {
+	if res.Error == "" || strings.HasPrefix(res.Error, "out-of-subset") {
+		// A function that leaves the subset is not proved, but the obligations generated before the
+		// unsupported instruction are complete (they depend on the code before them only): the ones
+		// a solver refutes are reported, the rest is not counted.
 		g.Discharge(o.WorkDir, o.TimeoutMs, o.Keep)
 	}
 	res.Obligations = g.obs
